@@ -132,12 +132,13 @@ def gen(rng, tier, i):
     p.opt('c13_class', cls); p.opt('c13_kind', kind)
     if kind == 'console':
         p.opt('console', 1)
-        items = gen_items(rng, 'strict', 'ascii', rng.choice((40, 200, 500)))
+        # (the console worker hands over what one read() returned, up to 4095 bytes: a paste or a piped file arrives as a few large chunks)
+        items = gen_items(rng, 'strict', 'ascii', rng.choice((40, 200, 500, 500, 2500, 3900, 9000)))
         stream = b''.join(b for _, b in items)
         # each console step is one read() result of the worker: cut the stream at random places (never two in one cycle)
         pos = 0
         while pos < len(stream):
-            n = rng.choice((1, 2, 5, 17, 60, len(stream)))
+            n = min(4095, rng.choice((1, 2, 5, 17, 60, 700, 2047, 2048, 4095, len(stream))) if len(stream) > 600 else rng.choice((1, 2, 5, 17, 60, len(stream))))
             p.cycle(console(stream[pos:pos + n])); pos += n
             if rng.random() < 0.3: p.cycle(tick())
         p.idle(len(items) + 8)
